@@ -27,7 +27,8 @@ def run(res, tier, replay):
         cases = robust.corpus_cases() + hostile + base + sweep.damaged_cases(rng, base, 1 if q else 6)
         n = robust.fill_oracle(res, cases, exe)
         # small fill values are plausible code lengths / symbols: the hostile inputs are also run with fresh memory holding 4, 5, 6, 8 and 1
-        n += robust.fill_oracle(res, hostile, exe, fills=(0x00, 0x04, 0x05, 0x06, 0x08, 0x01))
+        # (0x5A: the harness's read() first overwrites the whole destination with fill ^ 0x5A - with this fill the unread tail of a short read is zero)
+        n += robust.fill_oracle(res, hostile, exe, fills=(0x00, 0x04, 0x05, 0x06, 0x08, 0x01, 0x5A))
         res.oblige("search: %d scenarios give identical transcripts under four allocator fill patterns" % len(cases), n == 0)
         for c in cases: res.nontrivial.add(c.label + str(hash(c.scn.text()))); res.count("case-" + c.label.split(":")[0])
         res.samples = [c.label + " :: " + " | ".join(l for l in c.scn.lines if not l.startswith("file "))[:200] for c in cases[:3]]
